@@ -292,6 +292,31 @@ func init() {
 			o, fi := e.mutexField(a[0], e.strArg(a[1]))
 			return done(e.sync(e.syncObj(o.child(fi))).acq[e.intArg(a[2])].at)
 		},
+		"verifLockFieldArriveSeq": func(e *Exec, t *Thread, a []Value, g bool) (Value, bool) {
+			// event number at which the goroutine of the i-th acquisition arrived at Lock
+			o, fi := e.mutexField(a[0], e.strArg(a[1]))
+			return done(e.C.BVConst(64, uint64(e.sync(e.syncObj(o.child(fi))).acq[e.intArg(a[2])].arr)))
+		},
+		"verifLockFieldSeq": func(e *Exec, t *Thread, a []Value, g bool) (Value, bool) {
+			o, fi := e.mutexField(a[0], e.strArg(a[1]))
+			return done(e.C.BVConst(64, uint64(e.sync(e.syncObj(o.child(fi))).acq[e.intArg(a[2])].seq)))
+		},
+		"verifNetWriteThread": func(e *Exec, t *Thread, a []Value, g bool) (Value, bool) {
+			return done(e.C.BVConst(64, uint64(e.netWriteEv[e.intArg(a[0])][0])))
+		},
+		"verifNetWriteSeq": func(e *Exec, t *Thread, a []Value, g bool) (Value, bool) {
+			return done(e.C.BVConst(64, uint64(e.netWriteEv[e.intArg(a[0])][1])))
+		},
+		"verifSeq": func(e *Exec, t *Thread, a []Value, g bool) (Value, bool) {
+			// global event counter shared with lock arrivals/acquisitions and network writes
+			e.evSeq++
+			return done(e.C.BVConst(64, uint64(e.evSeq)))
+		},
+		"verifMutexFIFO": func(e *Exec, t *Thread, a []Value, g bool) (Value, bool) {
+			// from now on a free mutex is handed to the goroutine that arrived at Lock first
+			e.mutexFIFO = true
+			return done(nil)
+		},
 		"verifLockFieldThread": func(e *Exec, t *Thread, a []Value, g bool) (Value, bool) {
 			o, fi := e.mutexField(a[0], e.strArg(a[1]))
 			return done(e.C.BVConst(64, uint64(e.sync(e.syncObj(o.child(fi))).acq[e.intArg(a[2])].tid)))
@@ -403,8 +428,18 @@ func init() {
 
 		"(*sync.Mutex).Lock": func(e *Exec, t *Thread, a []Value, g bool) (Value, bool) {
 			o := e.syncObj(a[0].(Ptr))
-			if !g {
+			if !g && e.mutexFIFO && !t.arriving {
+				// FIFO policy: the arrival at Lock is a scheduling point of its own, so that the order
+				// in which goroutines queue up is explored like any other interleaving
+				t.arriving = true
+				t.pend = &pending{kind: pkYield}
+				return nil, false
+			}
+			if !g || t.arriving {
+				t.arriving = false
 				t.pend = &pending{kind: pkLock, mu: o}
+				e.evSeq++
+				t.lockArr = e.evSeq
 				return nil, false
 			}
 			s := e.sync(o)
@@ -412,7 +447,8 @@ func init() {
 				panic("granted Lock on a locked mutex")
 			}
 			s.locked = true
-			s.acq = append(s.acq, lockEvent{tid: t.ID, at: e.nowT()})
+			e.evSeq++
+			s.acq = append(s.acq, lockEvent{tid: t.ID, at: e.nowT(), arr: t.lockArr, seq: e.evSeq})
 			vcJoin(&t.vc, s.vc)
 			e.tick(t)
 			e.memVer++
@@ -678,6 +714,8 @@ func init() {
 			}
 			e.netWrites = append(e.netWrites, w)
 			e.netWriteAt = append(e.netWriteAt, e.nowT())
+			e.evSeq++
+			e.netWriteEv = append(e.netWriteEv, [2]int{t.ID, e.evSeq})
 			return done(Tuple{e.C.BVConst(64, uint64(buf.Len)), Iface{}})
 		},
 		// dialling: the peer is always 192.0.2.1:3671; the connection object is an empty stub whose
@@ -736,6 +774,8 @@ func init() {
 			}
 			e.netWrites = append(e.netWrites, w)
 			e.netWriteAt = append(e.netWriteAt, e.nowT())
+			e.evSeq++
+			e.netWriteEv = append(e.netWriteEv, [2]int{t.ID, e.evSeq})
 			return done(Tuple{e.C.BVConst(64, uint64(buf.Len)), Iface{}})
 		},
 		"(*net.UDPConn).Close": netClose,
